@@ -5,7 +5,7 @@
 // blocked dispatch_sync caller and asynchronous items are already queued behind it, (0) serial queue suspended from outside, (1) serial queue suspended from its own item,
 // (2) concurrent queue suspended from a barrier item, (3) queue created inactive, suspended depth-1 times, activate last,
 // (7) queue created inactive, suspended depth times, activated first (nothing may start), then resumed depth times.
-// (9)/(10) scenarios (3)/(7) on a concurrent queue.
+// (9)/(10) scenarios (3)/(7) on a concurrent queue. (11) see scenario_spill_race.
 // (6) hand-over of the last resume to another thread while the drainer leaves (see scenario_handover).
 // (8) a property setter that runs on the idle queue under its own temporary suspension (dispatch_set_target_queue /
 //     dispatch_queue_set_width on an active queue: _dispatch_barrier_trysync_or_async_f) while another thread nests suspensions into
@@ -152,11 +152,30 @@ static void scenario_setter(int qidx, int depth, int variant){ int conc=variant&
     if(!a_ran){ int extra=0; while(!a_ran && extra<300){ dispatch_resume(q); extra++; for(int w=0; w<20 && !a_ran; w++) usleep(500); }
       fail("a queue suspended N times and resumed N times did not restart after a property setter gave its own temporary suspension back while the inline count was in the side counter: N/resumed before the setter finished/extra resumes it took",depth,back,extra); } }
   if(!viol){ dispatch_barrier_sync(q,^{}); CUR=NULL; dispatch_release(q); dispatch_release(t); } else CUR=NULL; }
-int main(int argc,char**argv){ uint64_t seed=argc>1?strtoull(argv[1],0,0):1; rs=seed; evs=calloc(MAXEV,sizeof *evs);
+// (11) several threads cross the boundary between the inline counter and the side counter at the same moment: the queue has been
+// suspended 63 times (the inline counter is full); three threads, released together, suspend it once more each; then 66 resumes -
+// nothing starts before the last one, the pending item runs after it.
+static dispatch_queue_t xq; static atomic_int x_go, x_ready;
+static void *x_suspender(void *a){ (void)a; atomic_fetch_add(&x_ready,1); while(!atomic_load(&x_go)){} dispatch_suspend(xq); return 0; }
+static void scenario_spill_race(int qidx, int round){ dispatch_queue_t q=dispatch_queue_create("c06x",round%2?DISPATCH_QUEUE_CONCURRENT:DISPATCH_QUEUE_SERIAL); curq=qidx; CUR=q; xq=q;
+  printf("Q %d width %d stateoff %ld\n", qidx, round%2?4094:1, (long)((char*)_dispatch_verif_queue_state_addr(q)-(char*)q));
+  for(int i=0;i<63;i++) dispatch_suspend(q);
+  atomic_int ran=0; atomic_int *rp=&ran; dispatch_async(q,^{ atomic_store(rp,1); });
+  atomic_store(&x_go,0); atomic_store(&x_ready,0); pthread_t th[3]; for(int i=0;i<3;i++) pthread_create(&th[i],0,x_suspender,0);
+  while(atomic_load(&x_ready)<3){} atomic_store(&x_go,1); for(int i=0;i<3;i++) pthread_join(th[i],0);
+  for(int i=0;i<66;i++){ if(atomic_load(&ran)){ fail("an item started on a queue with suspensions outstanding after three threads had suspended it at the same moment with the inline counter full: resumes issued of 66 / round",i,round,0); break; }
+    dispatch_resume(q); if(i%8==7 || i>=63) usleep(300); }
+  if(!viol){ for(int w=0; w<3000 && !atomic_load(&ran); w++) usleep(1000); if(!atomic_load(&ran)) fail("the pending item did not run after 66 resumes for 66 suspensions (three of them issued at the same moment with the inline counter full): round",round,0,0); }
+  if(!viol){ dispatch_barrier_sync(q,^{}); CUR=NULL; dispatch_release(q); } else CUR=NULL; }
+#include <signal.h>
+static uint64_t g_seed;
+static void on_crash(int sig){ char b[260]; int n=snprintf(b,sizeof b,"ORACLE VIOL seed=%llu the library trapped or crashed (signal %d) during suspend / resume / activate histories (its own over-resume or corrupt-state check): scenario on queue %d\n",(unsigned long long)g_seed,sig,curq); if(n>0) (void)!write(1,b,(size_t)n); _exit(1); }
+int main(int argc,char**argv){ uint64_t seed=argc>1?strtoull(argv[1],0,0):1; rs=seed; g_seed=seed; signal(SIGILL,on_crash); signal(SIGSEGV,on_crash); signal(SIGABRT,on_crash); signal(SIGBUS,on_crash); evs=calloc(MAXEV,sizeof *evs);
   _dispatch_verif_atomic_cb=cb;
   static const int depths[]={1,2,31,32,33,63,64,65,95,96,97,127,128,129,200}; int nd=(int)(sizeof depths/sizeof *depths); int qi=0, sc=0;
   for(int k=0;k<11 && !viol;k++) for(int d=0; d<nd && !viol; d++){ if(k==6||k==8) continue; if(((seed+ (uint64_t)k*7 + (uint64_t)d)%3)==0 && depths[d]<96 && !(k>=9 && d<2)) continue; scenario(k,depths[d],qi++); sc++; }
   for(int i=0;i<6 && !viol;i++){ scenario_external(qi++); sc++; }
+  for(int i=0;i<40 && !viol;i++){ scenario_spill_race(qi++,i); sc++; }
   { static const int sd[]={1,31,32,62,63,64,95,96,127,130}; for(int d=0; d<10 && !viol; d++) for(int v=0; v<8 && !viol; v++){ if((seed+(uint64_t)d+(uint64_t)v)%2 && sd[d]!=63) continue; scenario_setter(qi++,sd[d],v); sc++; } }
   { int nt=argc>2?atoi(argv[2]):60; for(int i=0;i<nt && !viol;i++){ scenario_handover(qi++,i+(int)(seed%7)); sc++; } }
   _dispatch_verif_atomic_cb=0;
